@@ -1,11 +1,14 @@
 #!/bin/bash
 # Builds the conformance harness from /repo's current working tree (offline).
 set -e
-cd /verif/harness
+HERE="$(cd "$(dirname "$0")" && pwd)"
+cd "$HERE/harness"
 cp /repo/go.work.sum . 2>/dev/null || true
 GO=/root/go/pkg/mod/golang.org/toolchain@v0.0.1-go1.24.0.linux-amd64/bin/go
 [ -x "$GO" ] || GO=go
-mkdir -p /verif/.bin
+mkdir -p "$HERE/.bin"
 TAGS="${VERIF_TAGS-verif}"
-env -u GOFLAGS GOPROXY=off GOSUMDB=off GONOSUMDB='*' GONOSUMCHECK=1 GOFLAGS= GOTOOLCHAIN=local GOWORK=/verif/harness/go.work \
-  "$GO" build -tags "$TAGS" -o /verif/.bin/orbsim ./cmd/orbsim
+sed "s#^\t\.\$#\t$HERE/harness#" go.work > "$HERE/.bin/go.work"
+cp go.work.sum "$HERE/.bin/go.work.sum" 2>/dev/null || true
+env -u GOFLAGS GOPROXY=off GOSUMDB=off GOFLAGS= GOTOOLCHAIN=local GOWORK="$HERE/.bin/go.work" \
+  "$GO" build -tags "$TAGS" -o "$HERE/.bin/orbsim" ./cmd/orbsim
